@@ -18,9 +18,10 @@
 EXTENDS Integers, Sequences, FiniteSets, TLC
 CONSTANTS CU,           \* units per cluster
           Files, Dirs,  \* the path universe (abstract identities; one directory level below the root)
-          InD           \* the files that live in directory "D" (all other paths live in the root ".")
+          InD, InE      \* the files that live in directory "D" / "E" (all other paths live in the root ".");
+                        \* InE = {} when the universe has no second directory
 Paths == Files \cup Dirs
-Parent == [p \in Paths |-> IF p \in InD THEN "D" ELSE "."]
+Parent == [p \in Paths |-> IF p \in InD THEN "D" ELSE IF p \in InE THEN "E" ELSE "."]
 VARIABLES tree,         \* [Paths -> node]
           total,        \* data clusters free on the empty volume
           out           \* result class of the last call: "ok" | "err" | "full"
@@ -61,6 +62,19 @@ TruncT(p) == [tree EXCEPT ![p] = File(<<>>)]
 RenameT(p, q) == [tree EXCEPT ![q] = tree[p], ![p] = None]
 CanRename(p, q) == /\ p \in Files /\ q \in Files /\ p # q /\ Parent[p] = Parent[q]
                    /\ IsFile(p) /\ (Exists(q) => IsFile(q))
+\* renaming a directory: its children move with it (child "D/x" becomes "E/x"); onto nothing or, as a
+\* plain tree (POSIX) does, onto an empty directory
+Kid(d, n) == d \o "/" \o n
+KidNames == {"A", "b"}
+KidName(p) == CHOOSE n \in KidNames : \E d \in Dirs : p = Kid(d, n)
+RenameDirT(d, e) == [p \in Paths |-> IF p = e THEN Dir
+                                     ELSE IF p = d THEN None
+                                     ELSE IF Parent[p] = e THEN (IF Kid(d, KidName(p)) \in Paths THEN tree[Kid(d, KidName(p))] ELSE None)
+                                     ELSE IF Parent[p] = d THEN None
+                                     ELSE tree[p]]
+CanRenameDir(d, e) == /\ d \in Dirs /\ e \in Dirs /\ d # e /\ tree[d].kind = "dir"
+                      /\ (Exists(e) => \A q \in Children(e) : ~Exists(q))
+                      /\ \A q \in Children(d) : Kid(e, KidName(q)) \in Paths      \* the universe can name the moved children
 RemoveT(p) == [tree EXCEPT ![p] = None]
 CanRemove(p) == /\ p \in Paths /\ Exists(p)
                 /\ (tree[p].kind = "dir" => \A q \in Children(p) : ~Exists(q))
